@@ -171,3 +171,90 @@ package gen
 //@   modifies b
 //@ loop (*boolOptionalStats).add#1
 //@   invariant true
+
+// ---- reader (C10: a failed Read/Seek surfaces as an error)
+
+//@ pred readerOK(p) := p != nil && external(p.r)
+//@ pred readHeaps() := true
+
+//@ iface Field.Read
+//@   requires external(r)
+//@   modifies obj(self), heap("[]int64"), heap("[]string"), heap("[]bool"), heap("[]float32"), heap("[]float64"), heap("parquet.readCounter"), rfault
+//@   ensures[C10] err == nil ==> (rfault ==> old(rfault))
+
+//@ iface Field.Scan
+//@   modifies allexcept("GEN.ParquetReader")
+//@ iface Field.Name
+//@   modifies nothing
+//@ iface Field.Levels
+//@   modifies nothing
+
+//@ functype func(*GEN.ParquetReader)
+//@   requires arg0 != nil
+//@   modifies arg0
+//@   ensures arg0.r == old(arg0.r)
+
+//@ func getFields
+//@   modifies nothing
+//@   ensures res != nil && freshsince(res)
+//@ loop getFields#1
+//@   invariant m != nil && freshsince(m)
+
+//@ func NewParquetReader
+//@   requires external(r)
+//@   modifies allheaps, rfault
+//@   ensures err == nil ==> readerOK(res0)
+//@   ensures[C10] err == nil ==> (rfault ==> old(rfault))
+//@ loop NewParquetReader#1
+//@   invariant pr != nil && freshsince(pr) && pr.r == r && rfault == old(rfault)
+//@ loop NewParquetReader#2
+//@   invariant pr != nil && freshsince(pr) && pr.r == r && rfault == old(rfault) && freshsince(schema) && #schema == #ff
+
+//@ func (*ParquetReader).readRowGroup
+//@   requires readerOK(p)
+//@   modifies p, anyobj("GEN.Field"), heap("map[string][]parquet.Page"), heap("[]int64"), heap("[]string"), heap("[]bool"), heap("[]float32"), heap("[]float64"), heap("parquet.readCounter"), rfault
+//@   ensures p.r == old(p.r)
+//@   ensures[C10] err == nil ==> (rfault ==> old(rfault))
+//@ loop (*ParquetReader).readRowGroup#1
+//@   invariant p.r == old(p.r) && (rfault ==> old(rfault))
+
+//@ func (*ParquetReader).Next
+//@   requires readerOK(p)
+//@   modifies p, anyobj("GEN.Field"), heap("map[string][]parquet.Page"), heap("[]int64"), heap("[]string"), heap("[]bool"), heap("[]float32"), heap("[]float64"), heap("parquet.readCounter"), rfault
+//@   ensures p.r == old(p.r)
+//@   ensures[C10] rfault && !old(rfault) ==> !res && p.err != nil
+
+//@ func (*ParquetReader).Scan
+//@   requires p != nil
+//@   modifies allexcept("GEN.ParquetReader")
+//@   ensures[C10] rfault == old(rfault)
+//@ loop (*ParquetReader).Scan#1
+//@   invariant true
+
+//@ func (*ParquetReader).Error
+//@   modifies nothing
+//@   ensures[C10] res == p.err
+//@ func (*ParquetReader).Rows
+//@   modifies nothing
+
+// schema-specific assembly functions (writeX) as seen by the field types
+//@ template V in int32 int64 uint32 uint64 float32 float64 bool string
+//@ functype func(*GEN.REC, []{V})
+//@   modifies allexcept("GEN.ParquetReader")
+//@ functype func(*GEN.REC, []{V}, []uint8, []uint8) (int, int)
+//@   modifies allexcept("GEN.ParquetReader")
+//@ end template
+//@ loop write*#*
+//@   invariant true
+
+//@ template T in Int32 Int64 Uint32 Uint64 Float32 Float64
+//@ end template
+//@ loop (*StringField).Read#1
+//@   invariant (rfault ==> old(rfault)) && dyn(rr) == typeid("*bytes.Buffer") && payload(rr) != 0
+//@ loop (*StringOptionalField).Read#1
+//@   invariant (rfault ==> old(rfault)) && dyn(rr) == typeid("*bytes.Buffer") && payload(rr) != 0
+
+//@ func (indices).rep
+//@   modifies HA(i)
+//@ loop (indices).rep#1
+//@   invariant true
